@@ -10,7 +10,7 @@
    [is_legacy v = false] covers Fixed and Ideal. *)
 From Coq Require Import NArith List Bool.
 From RV Require Import Manager.ReloadModel Manager.ReloadProofs.
-From RV Require Rib.RibModel E2e.E2eModel E2e.E2eProofs.
+From RV Require Rib.RibModel E2e.E2eModel E2e.E2eProofs Bgp.BgpSessionModel Bgp.BgpSessionProofs.
 Import ListNotations.
 Local Open Scope N_scope.
 
@@ -174,6 +174,140 @@ Theorem C13_legacy_script_removed_refuted :
   option_map E2eModel.ru_filter (E2eModel.es_rib2 (E2eModel.e_run false (E2eModel.e_init (E2eModel.SRejectPfx 7)) h)) = Some E2eModel.SNone.
 Proof. exact E2eProofs.legacy_script_removed_refuted_std. Qed.
 Print Assumptions C13_legacy_script_removed_refuted.
+
+(* ---- generated vRIBs of a shorthand RIB (`filter_names` with more than one entry; E2e/E2eModel.v, tied to the code by
+   the `e2e` engine: ops K n / N i af p) ----
+   [e_init_v s0 n0] = start-up with script s0 and n0 generated vRIBs behind the physical RIB; [EVribs n] = the operator
+   asks for n of them, effective with the next reload; a vRIB records the load whose gates its two links - vrib_upstream,
+   through which it triggers the physical RIB, and sources, over which the result comes back - were made for;
+   [es_cur st] = the latest load = the load whose gates the running units hold. *)
+
+(* after ANY history of traffic, edits and reloads the links of every running generated vRIB are those of the last
+   load (what a unit of unchanged name and type must do with a Reconfigure: adopt the new links) ... *)
+Theorem C13_vribs_linked_to_current : forall lg s0 n0 h,
+  let st := E2eModel.e_run lg (E2eModel.e_init_v s0 n0) h in
+  forall v, In v (E2eModel.es_vribs st) ->
+    E2eModel.vr_up v = E2eModel.es_cur st /\ E2eModel.vr_src v = E2eModel.es_cur st.
+Proof. exact E2eProofs.vribs_linked_to_current. Qed.
+Print Assumptions C13_vribs_linked_to_current.
+
+(* ... so the query of a running vRIB always reaches the physical RIB of the current configuration and its result
+   comes down the chain *)
+Theorem C13_vrib_chain_always_linked : forall lg s0 n0 h i,
+  let st := E2eModel.e_run lg (E2eModel.e_init_v s0 n0) h in
+  (i < length (E2eModel.es_vribs st))%nat ->
+  E2eModel.chain_linked (E2eModel.es_cur st) (E2eModel.es_vribs st) i = true.
+Proof. exact E2eProofs.vrib_chain_always_linked. Qed.
+Print Assumptions C13_vrib_chain_always_linked.
+
+(* The property's reading ([vrib_query_spec]): vRIB i answers with the entries of the physical RIB that pass the
+   filters of the chain up to it. Partial: the code ([vrib_query_code]) does so - after every history, any number of
+   reloads - for a prefix the physical RIB holds nothing for, and for a path without a vRIB ... *)
+Theorem C13_vrib_query_partial : forall lg s0 n0 h i af pfx,
+  let st := E2eModel.e_run lg (E2eModel.e_init_v s0 n0) h in
+  RibModel.rib_query (E2eModel.ru_rib (E2eModel.es_rib st)) af pfx = [] ->
+  E2eModel.vrib_query_code st i af pfx = E2eModel.vrib_query_spec st i af pfx.
+Proof. exact E2eProofs.vrib_query_partial. Qed.
+Print Assumptions C13_vrib_query_partial.
+
+(* ... whenever it answers at all, it answers what the property asks for (any state) ... *)
+Theorem C13_vrib_code_answer_is_spec : forall st i af pfx l,
+  E2eModel.vrib_query_code st i af pfx = E2eModel.VAnswer l -> E2eModel.vrib_query_spec st i af pfx = E2eModel.VAnswer l.
+Proof. exact E2eProofs.vrib_code_answer_is_spec. Qed.
+Print Assumptions C13_vrib_code_answer_is_spec.
+
+(* ... and the proviso is needed (known finding C13-vrib-query-todo): with one route in the physical RIB the property
+   asks for it, the request is never answered - reprocess_rib_value is `todo!()` - while the neighbouring prefix is *)
+Theorem C13_vrib_query_refuted :
+  let st := E2eModel.e_run false (E2eModel.e_init_v E2eModel.SNone 1) E2eProofs.vrib_witness in
+  E2eModel.vrib_query_code st 0 0 1 = E2eModel.VNever /\
+  (exists e, E2eModel.vrib_query_spec st 0 0 1 = E2eModel.VAnswer [e]) /\
+  E2eModel.vrib_query_code st 0 0 2 = E2eModel.VAnswer [] /\ E2eModel.vrib_query_spec st 0 0 2 = E2eModel.VAnswer [].
+Proof. exact E2eProofs.vrib_query_refuted. Qed.
+Print Assumptions C13_vrib_query_refuted.
+
+(* with no filter in the chain a vRIB says what the physical RIB says *)
+Theorem C13_vrib_unfiltered_answers_as_prib : forall st i af pfx,
+  (i < length (E2eModel.es_vribs st))%nat ->
+  (forall v, In v (E2eModel.es_vribs st) ->
+     E2eModel.vr_filter v = E2eModel.SNone \/ E2eModel.vr_filter v = E2eModel.SNoRibFilter) ->
+  E2eModel.vrib_query_spec st i af pfx =
+  E2eModel.VAnswer (RibModel.rib_query (E2eModel.ru_rib (E2eModel.es_rib st)) af pfx).
+Proof. exact E2eProofs.vrib_unfiltered_answers_as_prib. Qed.
+Print Assumptions C13_vrib_unfiltered_answers_as_prib.
+
+(* a reload leaves running exactly as many generated vRIBs as the file asks for; one that stays is spared (filter and
+   birth kept, links replaced by this load's); one that is new is started with the script the reloaded configuration
+   names; nothing but a reload touches them *)
+Theorem C13_reload_vrib_count : forall lg st,
+  length (E2eModel.es_vribs (E2eModel.e_step lg st E2eModel.EReload)) = N.to_nat (E2eModel.ef_vribs (E2eModel.es_file st)).
+Proof. exact E2eProofs.reload_vrib_count. Qed.
+Print Assumptions C13_reload_vrib_count.
+
+Theorem C13_reload_spares_vribs : forall lg st i v,
+  nth_error (E2eModel.es_vribs st) i = Some v -> (i < N.to_nat (E2eModel.ef_vribs (E2eModel.es_file st)))%nat ->
+  nth_error (E2eModel.es_vribs (E2eModel.e_step lg st E2eModel.EReload)) i =
+  Some (E2eModel.MkVrib (E2eModel.vr_filter v) (E2eModel.vr_born v)
+          (length (E2eModel.es_scripts st)) (length (E2eModel.es_scripts st))).
+Proof. exact E2eProofs.reload_spares_vribs_nth. Qed.
+Print Assumptions C13_reload_spares_vribs.
+
+Theorem C13_reload_starts_vribs : forall st i,
+  (length (E2eModel.es_vribs st) <= i)%nat -> (i < N.to_nat (E2eModel.ef_vribs (E2eModel.es_file st)))%nat ->
+  nth_error (E2eModel.es_vribs (E2eModel.e_step false st E2eModel.EReload)) i =
+  Some (E2eModel.MkVrib (E2eModel.ef_script (E2eModel.es_file st))
+          (length (E2eModel.es_scripts st)) (length (E2eModel.es_scripts st)) (length (E2eModel.es_scripts st))).
+Proof. exact E2eProofs.reload_starts_vribs_nth. Qed.
+Print Assumptions C13_reload_starts_vribs.
+
+Theorem C13_only_reload_touches_vribs : forall lg st o,
+  o <> E2eModel.EReload -> E2eModel.es_vribs (E2eModel.e_step lg st o) = E2eModel.es_vribs st.
+Proof. exact E2eProofs.only_reload_touches_vribs. Qed.
+Print Assumptions C13_only_reload_touches_vribs.
+
+(* every generated vRIB filters with the script named by the configuration that was loaded when it was started *)
+Theorem C13_vrib_filter_is_script_of_its_load : forall s0 n0 h,
+  let st := E2eModel.e_run false (E2eModel.e_init_v s0 n0) h in
+  let named := s0 :: E2eModel.scripts_named s0 h in
+  forall v, In v (E2eModel.es_vribs st) -> nth_error named (E2eModel.vr_born v) = Some (E2eModel.vr_filter v).
+Proof. exact E2eProofs.vrib_filter_is_script_of_its_load. Qed.
+Print Assumptions C13_vrib_filter_is_script_of_its_load.
+
+(* non-vacuity of the vRIB statements: two vRIBs and a script at start-up, an edited script and a third vRIB by reload *)
+Example C13_vrib_example :
+  let st := E2eModel.e_run false (E2eModel.e_init_v (E2eModel.SRejectPfx 7) 2)
+              [E2eModel.EScript (E2eModel.SRejectPfx 8); E2eModel.EVribs 3; E2eModel.EReload] in
+  E2eModel.es_vribs st = [E2eModel.MkVrib (E2eModel.SRejectPfx 7) 0 1 1; E2eModel.MkVrib (E2eModel.SRejectPfx 7) 0 1 1;
+                          E2eModel.MkVrib (E2eModel.SRejectPfx 8) 1 1 1] /\ E2eModel.es_cur st = 1%nat /\
+  E2eModel.vrib_query_code st 2 0 8 = E2eModel.VAnswer [] /\ E2eModel.vrib_query_code st 3 0 8 = E2eModel.VAbsent.
+Proof. exact E2eProofs.vrib_example. Qed.
+
+(* ---- established BGP sessions of a bgp-tcp-in unit that is reconfigured (Bgp/BgpSessionModel.v: the select! loop of
+   the per-session Processor::process; tied to the code by the `bgpend` engine, event `r <kind>`) ----
+   [bs_spared e]: e is a Reconfiguring that changes neither listen / my_asn / my_bgp_id nor this session's peer entry:
+   nothing at all (BRSame) or only other peers' entries (BROthers). *)
+
+(* such a reconfiguration is no event for the session: no Disconnect, nothing sent, the loop goes on *)
+Theorem C13_bgp_reconfigure_spares_session : forall id key s e,
+  BgpSessionModel.bs_spared e = true -> BgpSessionModel.bs_step id key s e = (s, true).
+Proof. exact BgpSessionProofs.reconf_spares_session. Qed.
+Print Assumptions C13_bgp_reconfigure_spares_session.
+
+(* ... for every script of events: taking those reconfigurations out changes nothing of what the session does (updates
+   sent, live_sessions, commands to the session, the withdrawal at its end) *)
+Theorem C13_bgp_spared_reconfigurations_invisible : forall id key live0 evs,
+  fst (BgpSessionModel.bs_process id key live0 evs) =
+  fst (BgpSessionModel.bs_process id key live0 (filter (fun e => negb (BgpSessionModel.bs_spared e)) evs)).
+Proof. exact BgpSessionProofs.spared_reconfs_invisible. Qed.
+Print Assumptions C13_bgp_spared_reconfigurations_invisible.
+
+(* ... and only those are spared: any other reconfiguration makes the session disconnect (reconfiguration / de-configured) *)
+Theorem C13_bgp_other_reconfigurations_disconnect : forall id key s r,
+  BgpSessionModel.bs_spared (BgpSessionModel.BReconf r) = false ->
+  exists c go, BgpSessionModel.bs_step id key s (BgpSessionModel.BReconf r) = (BgpSessionModel.bs_command s c, go) /\
+               (c = BgpSessionModel.BCReconfiguration \/ c = BgpSessionModel.BCDeconfigured).
+Proof. exact BgpSessionProofs.reconf_not_spared_disconnects. Qed.
+Print Assumptions C13_bgp_other_reconfigurations_disconnect.
 
 (* non-vacuity: a valid pipeline with a shorthand rib (expanded to two vRIBs),
    an unused unit and three targets loads, runs what the file says, and a
